@@ -25,10 +25,14 @@ PROPERTIES = {
                        "All arena sizes, all ids: no bound.",
         "assumptions": A_COMMON + [
             "A6 Key's derived Hash/Eq obey vstd's HashMap key model (axiom_key_model)",
-            "A7 callers outside the verified set (SectionsBuilder, insert_from_iter/append_from_visitor, the tree->arena path) "
-            "call the primitives only with a free slot (can_link); known to be violated by `- - a\\n\\n    b\\n\\n  c` (DESIGN 2.3)",
-            "not covered: add_new_node_and / insert_from_iter / append_from_visitor (closure recursion over trait-generic NodeIter), "
-            "GraphNodePointer navigation in model/node.rs",
+            "A7' the assumed contract of SectionsBuilder::process_blocks (itertools/closure code) and A7-input, the shape of the blocks the "
+            "reader delivers / of the trees handed to insert_from_iter (no Table nodes, only container kinds have children, finite); "
+            "everything else of the former blanket assumption A7 (slot free at every primitive call) is now a proof obligation of "
+            "SectionsBuilder::{new,process_section,section_block,block}, Graph::from_markdown and insert_from_iter/append_from_visitor; "
+            "one known finding (list-head overwrite)",
+            "T11 the NodeIter interface is declared with ghost members (size, node_s, child_s, next_s); that every implementor's "
+            "next/child/node agree with a finite tree is assumed (for SquashIter this is the termination half of C17)",
+            "not covered: the Table arm of add_new_node_and and of SectionsBuilder::block (T9), GraphNodePointer navigation in model/node.rs",
         ],
     },
     "C04": {
